@@ -15,7 +15,8 @@ Cfgs ==
        {TailCfg(0, 0, k) : k \in {0, 1}}
        \cup {TailCfg(1, ql, k) : ql \in {3, 4}, k \in {0, 1, 2}}
        \cup {TailCfg(2, ql, k) : ql \in {1, 2, 3}, k \in {0, 1}}
-  ELSE {RedCfg(2, 3, 2, 1, 2, 1, 2, 1), RedCfg(1, 6, 1, 2, 4, 1, 2, 1), RedCfg(2, 4, 3, 1, 3, 1, 1, 2)}
+  ELSE {RedCfg(2, 3, 2, 1, 2, 1, 2, 1), RedCfg(1, 6, 1, 2, 4, 1, 2, 1), RedCfg(2, 4, 3, 1, 3, 1, 1, 2),
+        RedCfg(2, 2, 1, 1, 4, 1, 4, 1)}      \* the last one: hard limit below the maximum threshold
 Draws == {<<0, 1>>, <<1, 4>>, <<1, 2>>, <<3, 4>>, <<1, 1>>}
 
 Init == /\ \E c \in Cfgs : InitWith(c)
